@@ -69,11 +69,11 @@ class C02(Prop):
     lean_modules = ["NV.C02.Props", "NV.C02.Witness"]
     theorems = ["NV.C02.table_writes_in_bounds", "NV.C02.table_cursors_in_allocation", "NV.C02.mem_block_fits",
                 "NV.C02.include_depth_bounded", "NV.C02.include_stack_empty_after_end", "NV.C02.lexer_flag_clear_after_start", "NV.C02.yytext_in_bounds",
-                "NV.C02.idents_restored", "NV.C02.locals_reset_after_cleanup"]
+                "NV.C02.scratch_writes_in_bounds", "NV.C02.scratch_empty_after_destroy", "NV.C02.idents_restored", "NV.C02.locals_reset_after_cleanup"]
     witness_theorems = []
     consts = [("maxline", "MAXLINE"), ("defmax", "DEFMAX"), ("startBlockSize", "START_BLOCK_SIZE"),
-              ("numAreas", "NUMAREAS")]
-    const_headers = ["lib/lpc/lex.h", "lib/lpc/compiler.h"]
+              ("numAreas", "NUMAREAS"), ("scratchpadSize", "SCRATCHPAD_SIZE")]
+    const_headers = ["lib/lpc/lex.h", "lib/lpc/compiler.h", "lib/misc/scratchpad.h"]
     quick_n = 900
     thorough_n = 4000
     search_n = 600
@@ -148,6 +148,16 @@ class C02(Prop):
         self.exe = E.compile_harness("c02", [os.path.join(E.VERIF, "harness/c02/c02.c")])
         self.conf = E.make_mudlib(ctx.rundir)
         self.impl_cache = {}
+
+    def canon(self, lines):
+        """clean_parser() runs clean_up_locals(); scratch_destroy(); free_unused_identifiers(), epilog() runs
+        scratch_destroy() first; the model treats locals + identifier cleanup as one event, so the scratch_destroy
+        trace line is moved in front of it (the three do not interact)"""
+        out = [l.rstrip() for l in lines if l.strip() != ""]
+        for i in range(1, len(out) - 1):
+            if out[i].startswith("ev scr.destroy ") and out[i - 1].startswith("ev local.cleanup ") and out[i + 1].startswith("ev ident.free_unused"):
+                out[i - 1], out[i] = out[i], out[i - 1]
+        return out
 
     def run_impl(self, ctx, cases):
         res = E.run_harness(self.exe, self.conf, cases, ctx.rundir, args=["--timeout", "20"])
